@@ -40,7 +40,7 @@ HERE = os.path.abspath(__file__)
 MP = refmp.build(b'BND', [(refmp.cd('t'), b'v%d'), (refmp.cd('f', 'n.bin', 'text/plain'), b'data%d')], epilogue=b'\r\n')[0]
 MP_RICH = refmp.build(b'BND', [(refmp.cd('t'), b'v%d'), (refmp.cd('f', 'n.png', 'image/png') + b'\r\nX-Owner: owner-%d', b'data%d')], epilogue=b'\r\n')[0]
 MP = refmp.build(b'BND', [(refmp.cd('t'), b'v%d'), (refmp.cd('f', 'n.bin'), b'data%d')], epilogue=b'\r\n')[0]
-KINDS = ['getq', 'form', 'upload', 'raise', 'crash', '404', 'gen', 'wild', 'chunked', 'badform', 'badchunkj', 'badchunkh', 'notmod', 'rex', 'session', 'dm', 'sfile', '404first', 'm405']
+KINDS = ['getq', 'form', 'upload', 'raise', 'crash', '404', 'gen', 'wild', 'chunked', 'badform', 'badchunkj', 'badchunkh', 'notmod', 'rex', 'session', 'dm', 'sfile', '404first', 'm405', 'rhook']
 SESSION_SECRET = 'k8'
 
 
@@ -214,6 +214,14 @@ def make_app(om, obs):
         dapp.route('/sfile', 'GET', sfile)
     app.c08_default = dapp
     app.route('/notmod', 'GET', notmod)
+    # a route hook guards everything below /adm (403 without a token); /pub has no hook
+    def guard(prefix):
+        if app.request.query.get('token') != 'let-me-in':
+            raise om.HTTPError(403, 'no token for ' + prefix)
+        app.response.headers['X-Guard'] = 'passed ' + prefix
+    app.on_route('/adm', guard)
+    app.route('/adm/report', 'GET', lambda: 'the confidential report')
+    app.route('/pub/info', 'GET', lambda: 'public information')
     # two routes with different method sets: a request with another method is told the methods of ITS route
     app.route('/reports', 'GET', lambda: 'reports')
     app.route('/jobs', ['POST', 'PUT'], lambda: 'jobs')
@@ -257,6 +265,9 @@ def environ_for(kind, ident):
         # malformed chunked framing (mapped to the shared 400 object of errors_map); JSON or HTML error report, URLs of different length
         h2 = dict(h, Accept='application/json') if kind == 'badchunkj' else h
         return wsgi.environ('POST', '/chunked', qs='who=' + ident * (3 if kind == 'badchunkh' else 1), body=b'zz\r\n', chunked=True, headers=h2)
+    if kind == 'rhook':
+        # request 1 asks for the guarded page without a token, request 2 for the public page, request 3 for the guarded page with the token
+        return wsgi.environ('GET', '/pub/info' if ident == '2' else '/adm/report', qs='token=let-me-in' if ident == '3' else 'r=' + ident, headers=h)
     if kind == 'm405':
         return wsgi.environ('DELETE', '/reports' if ident == '1' else '/jobs', qs='m=' + ident, headers=h)
     if kind == 'sfile':
@@ -359,7 +370,7 @@ def judge(om, kinds, x):
 
 QUICK_PAIRS = [('getq', k) for k in KINDS[:8]] + [('raise', 'crash'), ('form', 'upload'), ('wild', 'wild'), ('404', 'crash'), ('gen', 'gen'),
                ('chunked', 'chunked'), ('badform', 'badform'), ('badchunkj', 'badchunkh'), ('getq', 'notmod'), ('notmod', 'crash'),
-               ('rex', 'rex'), ('session', 'session'), ('upload', 'upload'), ('sfile', 'sfile'), ('404first', '404first'), ('m405', 'm405')]
+               ('rex', 'rex'), ('session', 'session'), ('upload', 'upload'), ('sfile', 'sfile'), ('404first', '404first'), ('m405', 'm405'), ('rhook', 'rhook')]
 
 
 def pairs():
